@@ -70,6 +70,71 @@ def STerm.withScr (t : STerm) (s : SScr) : STerm × List Ev :=
 '''
 
 
+GRID_HEAD = '''import TM.GridScreen
+import TM.Term
+/-!
+# TM.GridTerm — the terminal over array-level grid screens: `GTerm` is `Term` with the two buffers
+stored the way the cell-grid buffer stores them (`GScr`: one record of the five parallel arrays
+per cell). `GTerm.apply` is the dispatch of `TM.Term` (escapes.go) word for word, with every
+screen operation replaced by its counterpart of `TM.GridScreen`; `GTerm.abs` maps both buffers
+through `GScr.abs` (policy `.blank`). GENERATED from `TM/Term.lean` by `tools/mkspanterm.py`
+(`./check C20` verifies that it is up to date). Rune text mode. Core-only, executable.
+-/
+namespace TM
+
+structure GTerm where
+  main : GScr
+  alt : GScr
+  onAlt : Bool := false
+  vflags : List Bool := [false, true, false, false, false, false]
+  vints : List Int := List.replicate 3 0
+  vstrs : List Bytes := List.replicate 3 []
+  kmain : Kbd := {}
+  kalt : Kbd := {}
+deriving Repr
+
+def GTerm.init (w h : Nat) : GTerm := { main := GScr.init w h, alt := GScr.init w h }
+
+/-- the cell-level terminal this array-level terminal shows (grid policy) -/
+def GTerm.abs (t : GTerm) : Term :=
+  { pol := .blank, main := t.main.abs, alt := t.alt.abs, onAlt := t.onAlt, vflags := t.vflags,
+    vints := t.vints, vstrs := t.vstrs, kmain := t.kmain, kalt := t.kalt }
+
+def GTerm.inv (t : GTerm) : Bool :=
+  t.main.inv && t.alt.inv && decide (t.main.w = t.alt.w) && decide (t.main.h = t.alt.h)
+
+def GTerm.scr (t : GTerm) : GScr := if t.onAlt then t.alt else t.main
+def GTerm.setScr (t : GTerm) (s : GScr) : GTerm := if t.onAlt then { t with alt := s } else { t with main := s }
+def GTerm.kbd (t : GTerm) : Kbd := if t.onAlt then t.kalt else t.kmain
+def GTerm.setKbd (t : GTerm) (k : Kbd) : GTerm := if t.onAlt then { t with kalt := k } else { t with kmain := k }
+
+def GTerm.setVFlag (t : GTerm) (i : Nat) (v : Bool) : GTerm × List Ev :=
+  ({ t with vflags := t.vflags.set i v }, [.vflag i v])
+def GTerm.setVInt (t : GTerm) (i : Nat) (v : Int) : GTerm × List Ev :=
+  ({ t with vints := t.vints.set i v }, [.vint i v])
+def GTerm.setVStr (t : GTerm) (i : Nat) (v : Bytes) : GTerm × List Ev :=
+  ({ t with vstrs := t.vstrs.set i v }, [.vstr i v])
+
+def GTerm.withScr (t : GTerm) (s : GScr) : GTerm × List Ev :=
+  (t.setScr s, [.cursor s.cx s.cy])
+
+'''
+
+
+def generate_grid():
+    src = open(os.path.join(LEAN, "TM", "Term.lean")).read()
+    a = src.index("/-! ### DEC private modes -/")
+    b = src[a:src.rindex("end TM")]
+    b = b.replace("Term.", "GTerm.").replace(": Term)", ": GTerm)").replace("Term × List Ev", "GTerm × List Ev")
+    b = b.replace("(s : Scr)", "(s : GScr)").replace(": Scr)", ": GScr)")
+    b = b.replace("s.put t.pol stored (cw cp)", "s.put stored (cw cp)")
+    b = b.replace("def csiReplyCPR (s : GScr) : Bytes :=", "def gCsiReplyCPR (s : GScr) : Bytes :=").replace("(csiReplyCPR s)", "(gCsiReplyCPR s)")
+    i = b.index("/-- `CSI > … m`: the value after the last `4`")
+    j = b.index("/-! ### CSI dispatch -/")
+    b = b[:i] + b[j:]
+    return GRID_HEAD + b + "\nend TM\n"
+
+
 def generate():
     src = open(os.path.join(LEAN, "TM", "Term.lean")).read()
     a = src.index("/-! ### DEC private modes -/")
@@ -94,13 +159,16 @@ def generate():
 
 
 if __name__ == "__main__":
-    out = generate()
-    path = os.path.join(LEAN, "TM", "SpanTerm.lean")
-    if "--check" in sys.argv:
-        cur = open(path).read() if os.path.exists(path) else ""
-        if cur != out:
-            print("lean/TM/SpanTerm.lean is not what tools/mkspanterm.py generates from lean/TM/Term.lean")
-            sys.exit(1)
-        print("lean/TM/SpanTerm.lean is up to date")
-    else:
-        open(path, "w").write(out)
+    bad = False
+    for name, out in (("SpanTerm.lean", generate()), ("GridTerm.lean", generate_grid())):
+        path = os.path.join(LEAN, "TM", name)
+        if "--check" in sys.argv:
+            cur = open(path).read() if os.path.exists(path) else ""
+            if cur != out:
+                print("lean/TM/%s is not what tools/mkspanterm.py generates from lean/TM/Term.lean" % name)
+                bad = True
+            else:
+                print("lean/TM/%s is up to date" % name)
+        else:
+            open(path, "w").write(out)
+    sys.exit(1 if bad else 0)
